@@ -311,12 +311,71 @@ pub fn scan_identifiers(text: &str) -> Vec<String> {
     v
 }
 
+/// identifiers of a request text that stand where an entity, a sub-entity or an alias stands:
+/// followed by `{`, `(` or `:` (functions and parameter keywords excluded)
+pub fn scan_alias_candidates(text: &str) -> Vec<String> {
+    let chars: Vec<char> = text.chars().collect();
+    let mut v = Vec::new();
+    let mut i = 0;
+    let mut first = true;
+    while i < chars.len() {
+        let c = chars[i];
+        if c == '"' {
+            // skip a string literal
+            i += 1;
+            while i < chars.len() && chars[i] != '"' {
+                if chars[i] == '\\' {
+                    i += 1;
+                }
+                i += 1;
+            }
+            i += 1;
+            continue;
+        }
+        if c.is_alphanumeric() || c == '_' || c == '.' {
+            let st = i;
+            while i < chars.len() && (chars[i].is_alphanumeric() || chars[i] == '_' || chars[i] == '.') {
+                i += 1;
+            }
+            let word: String = chars[st..i].iter().collect();
+            let preceded_by_dollar = st > 0 && chars[st - 1] == '$';
+            let mut j = i;
+            while j < chars.len() && chars[j].is_whitespace() {
+                j += 1;
+            }
+            let next = chars.get(j).copied().unwrap_or(' ');
+            let is_kw = matches!(
+                word.as_str(),
+                "order_by" | "search" | "before" | "after" | "nullable" | "count" | "avg" | "max" | "min" | "sum"
+            );
+            let head = first && matches!(word.as_str(), "query" | "mutate" | "delete");
+            if first {
+                first = false;
+                if head {
+                    // the optional name of the request follows: not an alias either
+                    let mut k = j;
+                    while k < chars.len() && (chars[k].is_alphanumeric() || chars[k] == '_') {
+                        k += 1;
+                    }
+                    i = k.max(i);
+                    continue;
+                }
+            }
+            if !preceded_by_dollar && !is_kw && (next == '{' || next == '(' || next == ':') {
+                v.push(word.replace('.', "$"));
+            }
+            continue;
+        }
+        i += 1;
+    }
+    v.sort();
+    v.dedup();
+    v
+}
+
 pub fn facts_from_text(model: &str, request: &str) -> SqlFacts {
     let mut f = SqlFacts::default();
-    f.alias_candidates = scan_identifiers(request)
-        .into_iter()
-        .map(|s| s.replace('.', "$"))
-        .collect();
+    f.alias_candidates = scan_alias_candidates(request);
     let lm = model.to_lowercase();
     // coarse scans: good enough to name the shape, the engine message decides first
     f.json_default_selected = {
@@ -330,7 +389,7 @@ pub fn facts_from_text(model: &str, request: &str) -> SqlFacts {
             }
             rest = &rest[i + 4..];
         }
-        found
+        found && request.contains("->")
     };
     f.non_finite_float = has_non_finite_float(model) || has_non_finite_float(request);
     f.quote_in_string_default = lm.contains("default") && model.contains('\'');
